@@ -81,11 +81,33 @@ func runListen(n int, udpFail, tcpFail string, stopMs int) string {
 	done := make(chan error, 1)
 	go func() { done <- p.ListenAndServe(ctx) }()
 	stopped := false
+	var clients []net.Conn
 	if stopMs >= 0 {
-		time.Sleep(time.Duration(stopMs) * time.Millisecond)
+		if stopMs >= 40 && !strings.ContainsAny(udpFail+tcpFail, "123") {
+			// every listener is up by now: clients connect over TCP and STAY connected (one has had a query
+			// answered, the others are idle) while the service is stopped - the normal state of a running daemon
+			time.Sleep(time.Duration(stopMs-15) * time.Millisecond)
+			for i, a := range addrs {
+				if c, err := net.DialTimeout("tcp", a, 300*time.Millisecond); err == nil {
+					clients = append(clients, c)
+					if i == 0 {
+						q := []byte{0x77, 0x01, 1, 0, 0, 1, 0, 0, 0, 0, 0, 0, 1, 'h', 0, 0, 1, 0, 1}
+						_, _ = c.Write(append(be16(len(q)), q...))
+					}
+				}
+			}
+			time.Sleep(15 * time.Millisecond)
+		} else {
+			time.Sleep(time.Duration(stopMs) * time.Millisecond)
+		}
 		cancel()
 		stopped = true
 	}
+	defer func() {
+		for _, c := range clients {
+			c.Close()
+		}
+	}()
 	returned := 0
 	cls := "-"
 	select {
@@ -97,6 +119,10 @@ func runListen(n int, udpFail, tcpFail string, stopMs int) string {
 	for _, h := range held {
 		h.Close()
 	}
+	for _, c := range clients {
+		c.Close()
+	}
+	clients = nil
 	rebind := "ok"
 	for i, a := range addrs {
 		if udpFail[i] == '2' || tcpFail[i] == '2' {
@@ -325,7 +351,7 @@ func init() {
 			}
 			stop := -1
 			if r.Chance(40) {
-				stop = r.Pick([]int{0, 0, 1, 2, 5, 20, 50})
+				stop = r.Pick([]int{0, 0, 1, 2, 5, 20, 50, 60, 80})
 			}
 			if stop < 0 && !strings.ContainsAny(uf+tf, "12") {
 				// nothing would ever end serving: make exactly one listener fail (not one of a named address)
